@@ -1,9 +1,5 @@
-import AioModel.Wire
-/-! Driver commands of property C03 (stub until the model exists). -/
+import Driver.Http
+/-! Driver commands of property C03: the shared HTTP parser model. -/
 namespace Aio.Driver.C03
-open Aio Aio.Wire
-
-def handle : List String → String
-  | _ => "bad-op"
-
+def handle : List String → String := Aio.Driver.Http.handle
 end Aio.Driver.C03
